@@ -310,6 +310,19 @@ func (c *WTClient) SendFrameRaw(b []byte) error {
 	return err
 }
 
+// SendFrameRawCut writes the bytes in two pieces, the network delivering the first piece (cut bytes) before the
+// second exists: the server's reads see the boundary. Root goroutine only (it waits for quiescence in between).
+func (c *WTClient) SendFrameRawCut(b []byte, cut int) error {
+	if cut <= 0 || cut >= len(b) {
+		return c.SendFrameRaw(b)
+	}
+	if err := c.SendFrameRaw(b[:cut]); err != nil {
+		return err
+	}
+	Settle()
+	return c.SendFrameRaw(b[cut:])
+}
+
 func (c *WTClient) SendPacket(p Pkt) error {
 	fr := encPacketFrame(c.O.Rev, c.O.B64, p)
 	return c.SendFrameRaw(wtEncode(fr.Binary, fr.Data))
